@@ -2,17 +2,18 @@ import io
 from . import ref
 
 
-def replay_history(writer, blocked, lengths, fins, readable=True):
+def replay_history(writer, blocked, lengths, fins, readable=True, content=None):
     from cardutil import mciipm
     f = io.BytesIO()
     if not readable:
         f.readable = lambda: False
     if writer == 'vbs':
         w = mciipm.VbsWriter(f, blocked=blocked)
-        items = [ref.content(n, i) for i, n in enumerate(lengths)]
+        items = list(content) if content else [ref.content(n, i) for i, n in enumerate(lengths)]
     else:
         w = mciipm.IpmWriter(f, blocked=blocked)
-        items = [{'MTI': '1144', 'DE2': ''.join(chr(65 + (j + i) % 26) for j in range(n))} for i, n in enumerate(lengths)]
+        items = [{'MTI': '1144', 'DE2': v} for v in content] if content else \
+            [{'MTI': '1144', 'DE2': ''.join(chr(65 + (j + i) % 26) for j in range(n))} for i, n in enumerate(lengths)]
     w.__enter__()
     for it in items:
         w.write(it)
